@@ -4,25 +4,23 @@ From BX Require Import Base.Prelude Base.Sha256 Model.JsonAcct Model.Merkle Mode
   Proofs.LedgerWitness Proofs.RefineSim Proofs.RefineQuery Proofs.RefineMain Proofs.RefineProps.
 Local Open Scope N_scope.
 
-(** Refinement.  For EVERY operation sequence made of the proved operations (get/set balance and
-    nonce, AddBalance, SetCode / GetCode, GetState, SetState incl. deletion, AddState,
-    QueryByPrefix, Snapshot, RevertToSnapshot with nested snapshots, Finalise, Clear,
-    FlushDirtyData, Commit, RollbackState, Version, cache evictions, reopen, getter dumps, raw
-    dumps), run from the empty ledger on the repaired model, every
+(** Refinement.  For EVERY operation sequence of the operation language (get/set balance and
+    nonce, AddBalance, SetCode incl. SetCode(nil) / GetCode, GetState, GetCommittedState, SetState
+    incl. deletion, AddState, QueryByPrefix, Snapshot, RevertToSnapshot with nested snapshots,
+    Finalise, Clear, FlushDirtyData, Commit, RollbackState, Version, cache evictions, reopen, getter
+    dumps, raw dumps), run from the empty ledger on the repaired model, every
     observable agrees with the reference specification (finite maps + snapshot stack + committed
     history) for as long as the sequence stays inside the domain [wf_thm_b]: a commit follows its
     flush directly with the next height; a revert names no snapshot invalidated by AddState /
-    Clear / Flush / Rollback; evictions happen between transactions; SetCode is called with a
-    non-nil code (SetCode(nil) is the open finding C13_setcode_nil_refuted).  Values are compared
-    modulo nil = empty.  Contract code is followed through the dirty object, the code cache, the
+    Clear / Flush / Rollback; evictions happen between transactions.  Values are compared
+    modulo nil = empty; GetCommittedState returns the value as of the block start, and the zero hash
+    or nothing when there is none.  Contract code is followed through the dirty object, the code cache, the
     store, the journal's PrevCode and reopen; the two premises say that the code hash function
     never returns the empty string and does not collide (with a collision the code cache, which is
-    only refreshed when the code hash of the record changes, would keep the old code).
-    NOT covered by the theorem (tied by correspondence only): GetCommittedState. *)
+    only refreshed when the code hash of the record changes, would keep the old code). *)
 Theorem C13_read_refines : forall (e : env),
   (forall c, e_kec e c <> []) -> (forall c c', e_kec e c = e_kec e c' -> c = c') ->
   forall ops : list op,
-  forallb proved_op ops = true ->
   spec_agree_P wf_thm_b false e spec0 ops (snd (run e cfg_fixed st0 ops)).
 Proof. exact refine_from_empty. Qed.
 Print Assumptions C13_read_refines.
@@ -30,7 +28,6 @@ Print Assumptions C13_read_refines.
 (** the same statement for the boolean predicate the judge evaluates on implementation traces *)
 Theorem C13_read_refines_bool : forall (e : env) (ops : list op),
   (forall c, e_kec e c <> []) -> (forall c c', e_kec e c = e_kec e c' -> c = c') ->
-  forallb proved_op ops = true ->
   fst (spec_agree_g wf_thm_b false e spec0 ops (snd (run e cfg_fixed st0 ops)) 0) = None.
 Proof. exact refine_bool. Qed.
 Print Assumptions C13_read_refines_bool.
@@ -107,17 +104,27 @@ Theorem C13_addstate_nil_refuted :
 Proof. exact (conj (proj1 addstate_nil_refuted) (conj (proj2 addstate_nil_refuted) addstate_nil_fixed)). Qed.
 Print Assumptions C13_addstate_nil_refuted.
 
-(** open findings kept in the model *)
+(** expected refutation (flag [d_setcode_nil], repaired in /repo): SetCode(nil) on an account that
+    has code: the old code in the same block, nil from the cache, the old code again after a reopen;
+    the repaired model answers the empty code three times and agrees with the specification *)
 Theorem C13_setcode_nil_refuted :
-  map (fun i => nth i (snd (run E0 cfg_fixed st0 h_setcode_nil)) ONone) [4; 7; 9]%nat =
+  map (fun i => nth i (snd (run E0 only_setcodenil st0 h_setcode_nil)) ONone) [4; 7; 9]%nat =
   [OS (SVal c1); OS (SVal None); OS (SVal c1)] /\
-  pb_model false cfg_fixed h_setcode_nil = Some 4.
-Proof. exact setcode_nil_refuted. Qed.
+  pb_model false only_setcodenil h_setcode_nil = Some 4 /\
+  wf_model cfg_fixed h_setcode_nil = true /\ pb_model true cfg_fixed h_setcode_nil = None.
+Proof. exact (conj (proj1 setcode_nil_refuted) (conj (proj2 setcode_nil_refuted) (proj2 setcode_nil_fixed))). Qed.
 Print Assumptions C13_setcode_nil_refuted.
 
-Theorem C13_getcommitted_refuted : pb_model false cfg_fixed h_getcommitted = Some 4.
-Proof. exact getcommitted_refuted. Qed.
+(** expected refutation (flag [d_getcommitted], repaired in /repo): GetCommittedState answered the
+    zero hash for every committed value; the repaired model returns the value *)
+Theorem C13_getcommitted_refuted :
+  pb_model false only_getcommitted h_getcommitted = Some 4 /\
+  nth 4 (snd (run E0 cfg_fixed st0 h_getcommitted)) ONone = OS (SVal v1) /\
+  wf_model cfg_fixed h_getcommitted = true /\ pb_model true cfg_fixed h_getcommitted = None.
+Proof. exact (conj getcommitted_refuted getcommitted_fixed). Qed.
 Print Assumptions C13_getcommitted_refuted.
+
+(** open finding kept in the model *)
 
 Theorem C13_empty_exists_refuted :
   pb_model false cfg_fixed h_empty = None /\ pb_model true cfg_fixed h_empty = Some 1 /\
